@@ -29,7 +29,9 @@ __doc__ = """C11 - long/short sizing respects gross leverage and the sign of eve
 RULE = ('Direct calls of the real LongShortLeveragedOrderSizer through a real SimulatedBroker/Portfolio with a '
         'harness-owned price handler: 1-8 assets, signed weights (half negative), all-zero vectors, zero-net but '
         'non-zero-gross vectors, prices 0.01-5000, equity 1e2-1e9, leverage {0.01, 0.5, 1, 2, 5, U}, zero or '
-        'percentage fees; 12% invalid inputs (leverage <= 0, NaN price). Oracle in exact rationals: q is an int with the '
+        'percentage fees; 12% invalid inputs (leverage <= 0, NaN price). Also: 1-3 further calls on the SAME sizer object with other weights/prices (half through the same dict changed in place); '
+        'sizing through the sizer wired by BacktestTradingSession/QuantTradingSystem with the configured buffer/leverage (incl. buffer 0.0 and 1.0); '
+        'a real CSV source whose leading rows are blank (sizing in that gap must be rejected). Oracle in exact rationals: q is an int with the '
         'sign of its weight (or 0), equal to trunc(trunc(after-fee dollars)/price) toward zero (neighbours accepted '
         'within 1e-9 of an integer), hence |q|*p <= A and (|q|+1)*p > A-1, and sum |q|*p <= L x equity x (1+f). '
         'Non-trivial: >= 2 assets, some non-zero weight, percentage fees; distinct = distinct input.')
